@@ -122,9 +122,10 @@ def run_check(pid, tier, seed, wall_cap=None, out_evidence=True, verbose=True):
     meta = getattr(mod, "META", {})
     if wall_cap is None:
         wall_cap = meta.get("wall_cap", {}).get(tier, 900 if tier == "quick" else 3600)
-    preflight = {}
+    preflight = {"find_minimal_distance_summary": dict(ctl.fmd_validation, merge_mode=ctl.merge_fmd,
+                                                         source="translated from the repository's current source by symx/kern.py")}
     if hasattr(mod, "preflight"):
-        preflight = mod.preflight(ctl, tier, seed) or {}
+        preflight.update(mod.preflight(ctl, tier, seed) or {})
     aggs = [QAgg(q) for q in qs]
     pending = []   # (qidx, prefix, max_paths, secs, profile)
     for i, q in enumerate(qs):
